@@ -235,6 +235,7 @@ def _image_name(arr):
 
 
 def run_anim(case):
+    import warnings
     import matplotlib.pyplot as plt
     from matplotlib.figure import Figure
     import importlib
@@ -260,7 +261,9 @@ def run_anim(case):
         if k in ks:
             calls[k] = [k, _rows_of(schedule), [] if makespan is None else int(makespan)]
         if real_plot is not None:
-            fig = real_plot(schedule, makespan, available_operations, current_time)
+            with warnings.catch_warnings():
+                warnings.simplefilter("ignore")      # set_xlim(0, 0) on an all-zero history
+                fig = real_plot(schedule, makespan, available_operations, current_time)
             charts[k] = read_axes(fig.axes[0], inst.num_jobs, "viridis", "Job ",
                                   [str(i) for i in range(len(schedule.schedule))])
         else:
@@ -373,9 +376,11 @@ def run_gif(case):
             fig.savefig(path, bbox_inches="tight")
             plt.close(fig)
             refs.append(np.asarray(imageio.imread(path))[..., :3].astype(np.int64))
+        step = 1 if n <= 30 else 2
+        refs = [r[::step, ::step] for r in refs]
         best = []
         for im in decoded:
-            im = np.asarray(im)[..., :3].astype(np.int64)
+            im = np.asarray(im)[..., :3].astype(np.int64)[::step, ::step]
             scores = []
             for r in refs:
                 hh, ww = min(im.shape[0], r.shape[0]), min(im.shape[1], r.shape[1])
@@ -451,10 +456,10 @@ class C20(Check):
     ]
 
     def budget(self):
-        return 260 if self.tier == "quick" else 2600
+        return 260 if self.tier == "quick" else 7800
 
     def search_budget(self):
-        return 400 if self.tier == "quick" else 3000
+        return 400 if self.tier == "quick" else 2600
 
     # ---- generation -------------------------------------------------------
     def gen_chart(self, rng):
@@ -548,10 +553,15 @@ class C20(Check):
             cases.append(self.gen_anim(rng, n=rng.randint(1, 9), real_plot=True))
         for _ in range(6 * scale):
             cases.append(self.gen_solver(rng))
+        # real GIFs (durations >= 1 so that consecutive frames differ visibly)
         for _ in range(1 if self.tier == "quick" else 3):
-            spec = common.gen_instance(rng, max_jobs=3, max_machines=3, max_ops=2, min_jobs=2)
+            spec = common.gen_instance(rng, max_jobs=3, max_machines=3, max_ops=2, min_jobs=2, zero=False)
             cases.append({"kind": "gif", "spec": spec, "history": random_history(rng, spec)})
             self.note("real_gif")
+        if self.tier == "thorough":
+            spec = [[[[rng.randrange(4)], rng.randint(1, 3)] for _ in range(26)] for _ in range(4)]
+            cases.insert(0, {"kind": "gif", "spec": spec, "history": random_history(rng, spec, 102)})
+            self.note("real_gif_102_frames")
         self.note("cases", len(cases))
         return cases
 
